@@ -233,4 +233,256 @@ theorem countlZero_eq (c : Cfg) (w x : Nat) (hx : x < 2^w) :
     · simp [h0, builtinClz, blen_eq]
   · exact countlZeroGen_eq w (w+1) x hx (by have := bitLength_le x w hx; omega)
 
+theorem max_promote_ge (T : IntTy) : 2^31 - 1 ≤ (promote T).max := by
+  have hb := promote_bits_ge T
+  unfold IntTy.max
+  have h1 : (2:Int)^31 ≤ 2^((promote T).bits - 1) := by
+    have := Nat.pow_le_pow_right (show 0 < 2 by decide) (show 31 ≤ (promote T).bits - 1 by omega)
+    exact_mod_cast this
+  have h2 : (2:Int)^31 ≤ 2^((promote T).bits) := by
+    have := Nat.pow_le_pow_right (show 0 < 2 by decide) (show 31 ≤ (promote T).bits by omega)
+    exact_mod_cast this
+  split <;> omega
+
+theorem uT_max (w : Nat) : (uT w).max = 2^w - 1 := by simp [IntTy.max, uT]
+
+theorem le_uT_max (w x : Nat) (h : x < 2^w) : (x:Int) ≤ (uT w).max := by
+  rw [uT_max]
+  have : ((x:Nat):Int) < ((2^w : Nat) : Int) := by exact_mod_cast h
+  simp at this
+  omega
+
+/-- `x & 1` (or `x & T{1}`): the low bit, in the promoted type -/
+theorem band_one (T B : IntTy) (x : Nat) (hx : (x:Int) ≤ T.max) (hB : B = T ∨ B = i32) :
+    cBin .band (T, (x:Int)) (B, 1) = .ok (promote T, ((x % 2 : Nat) : Int)) := by
+  have hP : usualArith T B = promote T := by
+    cases hB with
+    | inl h => rw [h]; exact usualArith_self T
+    | inr h => rw [h]; exact usualArith_i32 T
+  have hb := promote_bits_ge T
+  have h1 := max_promote_ge T
+  have := cBin_band_nat T B (promote T) hP (by omega) x 1 (le_max_promote T _ hx) (by simp; omega)
+  simpa [Nat.and_one_is_mod] using this
+
+theorem run_shift (p : Nat → Bool) : ∀ (n i : Nat), run p (i+1) n = run (fun j => p (j+1)) i n
+  | 0, _ => rfl
+  | n+1, i => by simp only [run]; rw [run_shift p n (i+1)]
+
+theorem run_all (p : Nat → Bool) (h : ∀ i, p i = true) : ∀ (n i : Nat), run p i n = n
+  | 0, _ => rfl
+  | n+1, i => by simp only [run, h, if_true]; rw [run_all p h n (i+1)]
+
+theorem countrZero_succ (w x : Nat) :
+    Spec.Bits.countrZero (w+1) x = if x % 2 = 1 then 0 else Spec.Bits.countrZero w (x / 2) + 1 := by
+  unfold Spec.Bits.countrZero
+  simp only [run, Nat.testBit_zero]
+  rw [run_shift]
+  simp only [Nat.testBit_add_one]
+  by_cases h : x % 2 = 1 <;> simp [h]
+
+theorem countrOne_succ (w x : Nat) :
+    Spec.Bits.countrOne (w+1) x = if x % 2 = 1 then Spec.Bits.countrOne w (x / 2) + 1 else 0 := by
+  unfold Spec.Bits.countrOne
+  simp only [run, Nat.testBit_zero]
+  rw [run_shift]
+  simp only [Nat.testBit_add_one]
+  by_cases h : x % 2 = 1 <;> simp [h]
+
+theorem countrZero_zero (w : Nat) : Spec.Bits.countrZero w 0 = w := by
+  unfold Spec.Bits.countrZero
+  exact run_all _ (by simp) w 0
+
+theorem lowZeros_eq : ∀ (n x : Nat), lowZeros n x = Spec.Bits.countrZero n x
+  | 0, _ => rfl
+  | n+1, x => by
+    rw [countrZero_succ, lowZeros, lowZeros_eq n (x/2)]
+
+theorem countrZeroImpl_eq (w : Nat) : ∀ (n fuel x : Nat), x ≠ 0 → x < 2^n → n ≤ w → n < fuel →
+    countrZeroImpl w fuel x = .ok ((Spec.Bits.countrZero n x : Nat) : Int)
+  | 0, _, x, h0, hx, _, _ => by simp at hx; omega
+  | _, 0, _, _, _, _, hf => by omega
+  | n+1, fuel+1, x, h0, hx, hw, hf => by
+    have hxw : x < 2^w := Nat.lt_of_lt_of_le hx (Nat.pow_le_pow_right (by decide) hw)
+    unfold countrZeroImpl
+    rw [band_one (uT w) i32 x (le_uT_max w x hxw) (Or.inr rfl)]
+    simp only [Res.bind_ok, countrZero_succ]
+    by_cases hodd : x % 2 = 1
+    · simp [hodd]
+    · have he : x % 2 = 0 := by omega
+      simp only [he]
+      rw [shr1_cast w x hxw]
+      simp only [Res.bind_ok, Int.toNat_natCast]
+      have hx2 : x / 2 < 2^n := by rw [Nat.pow_succ] at hx; omega
+      rw [countrZeroImpl_eq w n fuel (x/2) (by omega) hx2 (by omega) (by omega)]
+      simp
+
+theorem countrZero_eq (c : Cfg) (w x : Nat) (hx : x < 2^w) :
+    countrZero c w x = .ok ((Spec.Bits.countrZero w x : Nat) : Int) := by
+  unfold countrZero
+  by_cases h0 : x = 0
+  · subst h0; simp [countrZero_zero]
+  · simp only [ne_eq, h0, not_false_eq_true, if_true]
+    split
+    · simp [builtinCtz, h0, lowZeros_eq]
+    · exact countrZeroImpl_eq w w (w+1) x h0 hx (Nat.le_refl _) (by omega)
+
+/-! ## rotations -/
+
+theorem two_pow_dvd (w n : Nat) (hw : w ≤ n) : ((2:Int)^w) ∣ 2^n :=
+  ⟨2^(n - w), by rw [← Int.pow_add]; congr 1; omega⟩
+
+theorem promote_bits_ge_self (T : IntTy) : T.bits ≤ (promote T).bits := by
+  unfold promote; split
+  · have : i32.bits = 32 := rfl
+    omega
+  · exact Nat.le_refl _
+
+theorem natCast_emod_two_pow (n w : Nat) : ((n:Int) % 2^w) = ((n % 2^w : Nat) : Int) := by
+  norm_cast
+
+theorem toNat_emod_two_pow (z : Int) (hz : 0 ≤ z) (w : Nat) : z.toNat % 2^w = (z % 2^w).toNat := by
+  have h1 : ((z.toNat % 2^w : Nat) : Int) = z % 2^w := by
+    rw [← natCast_emod_two_pow, Int.toNat_of_nonneg hz]
+  have h2 : (((z % 2^w).toNat : Nat) : Int) = z % 2^w :=
+    Int.toNat_of_nonneg (Int.emod_nonneg _ (Int.ne_of_gt (pow_pos' _)))
+  exact Int.ofNat_inj.mp (h1.trans h2.symm)
+
+theorem bitPattern_low (P : IntTy) (w : Nat) (hw : w ≤ P.bits) (a : Int) :
+    bitPattern P (P.wrap a) % 2^w = (a % 2^w).toNat := by
+  unfold bitPattern
+  rw [wrap_emod, toNat_emod_two_pow _ (Int.emod_nonneg _ (Int.ne_of_gt (pow_pos' _))),
+    Int.emod_emod_of_dvd _ (two_pow_dvd w P.bits hw)]
+
+theorem bor_low (P : IntTy) (hPP : usualArith P P = P) (w : Nat) (hw : w ≤ P.bits) (a b : Int) :
+    ((cBin .bor (P, a) (P, b)) >>= (fun c => (pure ((uT w).wrap c.2).toNat : Res Nat)))
+      = .ok ((a % 2^w).toNat ||| (b % 2^w).toNat) := by
+  simp only [cBin, hPP, Res.bind_ok, Res.pure_eq]
+  congr 1
+  rw [wrap_uT, wrap_emod_le P w hw]
+  simp only [Int.ofNat_eq_natCast]
+  rw [natCast_emod_two_pow, Int.toNat_natCast, Nat.or_mod_two_pow, bitPattern_low P w hw, bitPattern_low P w hw]
+theorem usualArith_promote_self (T : IntTy) : usualArith (promote T) (promote T) = promote T := by
+  rw [usualArith_self, promote_promote]
+
+theorem toNat_natCast_expr (n : Nat) (z : Int) (h : z = (n:Int)) : z.toNat = n := by
+  subst h; exact Int.toNat_natCast n
+
+theorem rotl_arith (w x s : Nat) (hw : 1 ≤ w) :
+    rotl w x s = .ok ((x * 2^(s % w)) % 2^w ||| (x / 2^((w - s % w) % w)) % 2^w) := by
+  have hk : s % w < w := Nat.mod_lt _ (by omega)
+  have hj : (w - s % w) % w < w := Nat.mod_lt _ (by omega)
+  have hP : w ≤ (promote (uT w)).bits := promote_bits_ge_self (uT w)
+  unfold rotl
+  dsimp only
+  rw [cBin_shl (uT w) x u32 (s % w) (by omega), cBin_shr (uT w) x u32 ((w - s % w) % w) (by omega)]
+  simp only [Res.bind_ok]
+  rw [bor_low (promote (uT w)) (usualArith_promote_self _) w hP]
+  congr 1
+  rw [wrap_emod_le (promote (uT w)) w hP]
+  congr 1
+  all_goals (apply toNat_natCast_expr; push_cast; rfl)
+
+theorem rotr_arith (w x s : Nat) (hw : 1 ≤ w) :
+    rotr w x s = .ok ((x / 2^(s % w)) % 2^w ||| (x * 2^((w - s % w) % w)) % 2^w) := by
+  have hk : s % w < w := Nat.mod_lt _ (by omega)
+  have hj : (w - s % w) % w < w := Nat.mod_lt _ (by omega)
+  have hP : w ≤ (promote (uT w)).bits := promote_bits_ge_self (uT w)
+  unfold rotr
+  dsimp only
+  rw [cBin_shr (uT w) x u32 (s % w) (by omega), cBin_shl (uT w) x u32 ((w - s % w) % w) (by omega)]
+  simp only [Res.bind_ok]
+  rw [bor_low (promote (uT w)) (usualArith_promote_self _) w hP]
+  congr 1
+  rw [wrap_emod_le (promote (uT w)) w hP]
+  congr 1
+  all_goals (apply toNat_natCast_expr; push_cast; rfl)
+
+theorem testBit_high (x w m : Nat) (hx : x < 2^w) (hm : w ≤ m) : x.testBit m = false :=
+  Nat.testBit_lt_two_pow (Nat.lt_of_lt_of_le hx (Nat.pow_le_pow_right (by decide) hm))
+
+theorem testBit_ofBits (f : Nat → Bool) : ∀ (w i : Nat), (ofBits w f).testBit i = (decide (i < w) && f i)
+  | 0, i => by simp [ofBits]
+  | w+1, i => by
+    simp only [ofBits, Nat.testBit_or, testBit_ofBits f w i]
+    by_cases h2 : w = i
+    · subst h2
+      by_cases hf : f w <;> simp [hf]
+    · by_cases h1 : i < w
+      · have h3 : i < w + 1 := by omega
+        by_cases hf : f w <;> simp [hf, h1, h2, h3]
+      · have h3 : ¬ (i < w + 1) := by omega
+        by_cases hf : f w <;> simp [hf, h1, h2, h3]
+
+theorem ofBits_lt (f : Nat → Bool) (w : Nat) : ofBits w f < 2^w := by
+  apply Nat.lt_pow_two_of_testBit
+  intro i hi
+  rw [testBit_ofBits]
+  have : ¬ (i < w) := by omega
+  simp [this]
+theorem mod_two_pow_of_lt (x w : Nat) (h : x < 2^w) : x % 2^w = x := Nat.mod_eq_of_lt h
+
+theorem rotl_eq (w x s : Nat) (hw : 1 ≤ w) (hx : x < 2^w) : rotl w x s = .ok (Spec.Bits.rotl w x s) := by
+  rw [rotl_arith w x s hw]
+  congr 1
+  apply Nat.eq_of_testBit_eq
+  intro i
+  have hk : s % w < w := Nat.mod_lt _ (by omega)
+  unfold Spec.Bits.rotl
+  rw [testBit_ofBits, Nat.testBit_or, Nat.testBit_mod_two_pow, Nat.testBit_mod_two_pow,
+    Nat.testBit_mul_two_pow, Nat.testBit_div_two_pow]
+  generalize hkk : s % w = k at *
+  by_cases hi : i < w
+  · simp only [hi, decide_true, Bool.true_and]
+    by_cases hk0 : k = 0
+    · subst hk0
+      have e1 : (w - 0) % w = 0 := by simp
+      have e2 : (i + (w - 0)) % w = i := by
+        rw [Nat.sub_zero, Nat.add_mod_right]; exact Nat.mod_eq_of_lt hi
+      have e0 : i % w = i := Nat.mod_eq_of_lt hi
+      simp [e0]
+    · have e1 : (w - k) % w = w - k := Nat.mod_eq_of_lt (by omega)
+      rw [e1]
+      by_cases hik : k ≤ i
+      · have e2 : (i + (w - k)) % w = i - k := by
+          have : i + (w - k) = (i - k) + w := by omega
+          rw [this, Nat.add_mod_right]; exact Nat.mod_eq_of_lt (by omega)
+        have e3 : x.testBit (i + (w - k)) = false := testBit_high x w _ hx (by omega)
+        simp [hik, e2, e3]
+      · have e2 : (i + (w - k)) % w = i + (w - k) := Nat.mod_eq_of_lt (by omega)
+        simp [hik, e2]
+  · have e3 : x.testBit (i + (w - k) % w) = false := testBit_high x w _ hx (by omega)
+    simp [hi]
+
+theorem rotr_eq (w x s : Nat) (hw : 1 ≤ w) (hx : x < 2^w) : rotr w x s = .ok (Spec.Bits.rotr w x s) := by
+  rw [rotr_arith w x s hw]
+  congr 1
+  apply Nat.eq_of_testBit_eq
+  intro i
+  have hk : s % w < w := Nat.mod_lt _ (by omega)
+  unfold Spec.Bits.rotr
+  rw [testBit_ofBits, Nat.testBit_or, Nat.testBit_mod_two_pow, Nat.testBit_mod_two_pow,
+    Nat.testBit_mul_two_pow, Nat.testBit_div_two_pow]
+  generalize hkk : s % w = k at *
+  by_cases hi : i < w
+  · simp only [hi, decide_true, Bool.true_and]
+    by_cases hk0 : k = 0
+    · subst hk0
+      have e1 : (w - 0) % w = 0 := by simp
+      have e2 : (i + 0) % w = i := by rw [Nat.add_zero]; exact Nat.mod_eq_of_lt hi
+      have e0 : i % w = i := Nat.mod_eq_of_lt hi
+      simp [e0]
+    · have e1 : (w - k) % w = w - k := Nat.mod_eq_of_lt (by omega)
+      rw [e1]
+      by_cases hik : i + k < w
+      · have e2 : (i + k) % w = i + k := Nat.mod_eq_of_lt hik
+        have e4 : ¬ (w - k ≤ i) := by omega
+        simp [e2, e4]
+      · have e2 : (i + k) % w = i - (w - k) := by
+          have : i + k = (i - (w - k)) + w := by omega
+          rw [this, Nat.add_mod_right]; exact Nat.mod_eq_of_lt (by omega)
+        have e3 : x.testBit (i + k) = false := testBit_high x w _ hx (by omega)
+        have e4 : w - k ≤ i := by omega
+        simp [e2, e3, e4]
+  · simp [hi]
+
 end Cnl.Bits
